@@ -47,7 +47,7 @@ var verifVocabSoup = []string{
 var verifVocabDDL = []string{
 	"CREATE", "ALTER", "DROP", "TABLE", "INDEX", "OR", "REPLACE", "VIEW", "IF", "NOT", "EXISTS", "SEQUENCE", "CHANGE", "STREAM", "ROLE", "MODEL",
 	"UNIQUE", "NULL_FILTERED", "SEARCH", "SCHEMA", "DATABASE", "PROPERTY", "GRAPH", "RENAME", "GRANT", "REVOKE", "ANALYZE", "CALL", "INSERT", "DELETE", "UPDATE",
-	"t", "1", "(", ")", ";", "SELECT", "SET", "OPTIONS", "ON", "ADD", "COLUMN", ",", "@{h=1}",
+	"t", "1", "(", ")", ";", "SELECT", "SET", "OPTIONS", "ON", "ADD", "COLUMN", ",", "@{h=1}", "@{h=}", "@{h=1+}", "FROM", "INTO", "WHERE",
 }
 
 func verifVocab(id int) []string {
